@@ -159,6 +159,32 @@ func init() {
 				return true
 			})
 		}
+		// parseRalativeDateTime: is a negative (or NaN) number rejected — a comparison of the ParseFloat result with 0
+		relNonNeg := false
+		if fd := funcDecl(lf, "", "parseRalativeDateTime"); fd == nil {
+			problem("lql.parseRalativeDateTime not found")
+		} else {
+			floatVar := ""
+			inspectWithHelpers(lf, fd, 1, func(n ast.Node) bool {
+				if as, ok := n.(*ast.AssignStmt); ok && len(as.Rhs) == 1 && len(as.Lhs) >= 1 {
+					if c, ok := as.Rhs[0].(*ast.CallExpr); ok {
+						if se, ok := c.Fun.(*ast.SelectorExpr); ok && se.Sel.Name == "ParseFloat" {
+							if id, ok := as.Lhs[0].(*ast.Ident); ok {
+								floatVar = id.Name
+							}
+						}
+					}
+				}
+				if be, ok := n.(*ast.BinaryExpr); ok && floatVar != "" {
+					isV := func(e ast.Expr) bool { id, ok := e.(*ast.Ident); return ok && id.Name == floatVar }
+					isZ := func(e ast.Expr) bool { bl, ok := e.(*ast.BasicLit); return ok && (bl.Value == "0" || bl.Value == "0.0") }
+					if (isV(be.X) && isZ(be.Y) && (be.Op == token.LSS || be.Op == token.GEQ)) || (isZ(be.X) && isV(be.Y) && (be.Op == token.GTR || be.Op == token.LEQ)) {
+						relNonNeg = true
+					}
+				}
+				return true
+			})
+		}
 		// ast.Inspect visits `strings.ToLower(strings.Trim(..))` outer call first; the order list only holds the four attempts
 		orderOK := len(order) == 4 && order[0] == "relative" && order[1] == "constants" && order[2] == "formats" && order[3] == "integer"
 
@@ -370,6 +396,8 @@ func init() {
 		}
 		l.p("/-- the text handed to `dateTimeParser.Parse` is the lower-cased variable (false: the text as written, trimmed) -/")
 		l.p("def lqlFormatsSeeLowerCased : Bool := %s", leanBool(lowered[fmtArg]))
+		l.p("/-- `parseRalativeDateTime` rejects a number that is negative or NaN (a comparison of the ParseFloat result with 0) -/")
+		l.p("def lqlRelativeRejectsNegative : Bool := %s", leanBool(relNonNeg))
 		l.p("/-- `parseLqlDateTime` applies `strings.Trim(.., \" \")` -/")
 		l.p("def lqlTrimsBlanks : Bool := %s", leanBool(trim))
 		l.p("/-- the four attempts are made in the order relative, constants, format list, integer -/")
